@@ -3,8 +3,16 @@ package main
 import (
 	"fmt"
 	"os"
+	"strconv"
 
 	"verif/lab/checks"
 )
 
-func main() { fmt.Println(checks.DebugDatagram(os.Args[1])) }
+func main() {
+	if os.Args[1] == "sync" {
+		seed, _ := strconv.ParseInt(os.Args[3], 10, 64)
+		fmt.Println(checks.DebugSyncSession(os.Args[2], seed))
+		return
+	}
+	fmt.Println(checks.DebugDatagram(os.Args[1]))
+}
